@@ -1068,7 +1068,11 @@ func c15HealthyBits(op ring.Operation) string {
 	return string(b)
 }
 
+// c15ReplNow: the instant the model uses; the instances' heartbeats are written to the line rebased to it.
+const c15ReplNow = int64(2000000000)
+
 func c15Repl(e *env, r *rng) {
+	realNow := time.Now().Unix()
 	zones := []string{"a", "b", "c"}
 	// instances: ids like ing-<zone>-<n>; heartbeat far in the future (healthy) or in 1970 (unhealthy)
 	inst := ring.NewDesc()
@@ -1083,10 +1087,10 @@ func c15Repl(e *env, r *rng) {
 		if _, dup := inst.Ingesters[id]; dup {
 			continue
 		}
-		hb := c14Heartbeat
-		if r.chance(1, 8) {
-			hb = 1000
-		}
+		// heartbeat ages (seconds, relative to the real clock read once per case): far in the future, 30 min
+		// (inside the 1 h heartbeat timeout), 5 h (outside it, inside a 10 h look-back period), decades
+		age := pick(r, []int64{-1000000000, -1000000000, -1000000000, -1000000000, -1000000000, 1800, 1800, 1800, 18000, 18000, realNow - 1000})
+		hb := realNow - age
 		zone := z
 		if r.chance(1, 8) {
 			zone = pick(r, zones) // zone not matching the name
@@ -1143,28 +1147,59 @@ func c15Repl(e *env, r *rng) {
 	if err != nil {
 		panic(err)
 	}
+	// the line carries the heartbeats rebased to c15ReplNow (ages are minutes to decades: the milliseconds a case takes do not matter)
+	instLine := ring.NewDesc()
+	for id, i := range inst.Ingesters {
+		i.Timestamp = i.Timestamp - realNow + c15ReplNow
+		instLine.Ingesters[id] = i
+	}
+	instStr := encDesc(instLine)
+	showSets := func(sets []ring.ReplicationSet, err error) string {
+		if err != nil {
+			return "err:" + c15Err(err)
+		}
+		ss := make([]string, len(sets))
+		for i, s := range sets {
+			var in []string
+			for _, x := range s.Instances {
+				in = append(in, x.Id)
+			}
+			sort.Strings(in)
+			za := 0
+			if s.ZoneAwarenessEnabled {
+				za = 1
+			}
+			ss[i] = strings.Join(in, "+") + ":" + itoa(s.MaxUnavailableZones) + ":" + itoa(s.MaxErrors) + ":" + itoa(za)
+		}
+		sort.Strings(ss)
+		return "ok:" + strings.Join(ss, ";")
+	}
 	if !multi {
 		pir := ring.NewPartitionInstanceRing(c15Reader{pr}, ir, time.Hour)
 		sets, err := pir.GetReplicationSetsForOperation(op)
-		o := "err:" + c15Err(err)
-		if err == nil {
-			ss := make([]string, len(sets))
-			for i, s := range sets {
-				var in []string
-				for _, x := range s.Instances {
-					in = append(in, x.Id)
-				}
-				sort.Strings(in)
-				za := 0
-				if s.ZoneAwarenessEnabled {
-					za = 1
-				}
-				ss[i] = strings.Join(in, "+") + ":" + itoa(s.MaxUnavailableZones) + ":" + itoa(s.MaxErrors) + ":" + itoa(za)
+		e.emit("C15.repl", c14EncPDesc(d), instStr, c15HealthyBits(op), showSets(sets, err))
+		// sub-rings: ShuffleShard and ShuffleShardWithLookback (look-back period smaller / larger than the 1 h
+		// heartbeat timeout). Which partitions a sub-ring holds is read from the implementation (shuffle sharding is
+		// C12's subject); the model gets the descriptor restricted to them and the SAME heartbeat timeout.
+		restrict := func(sub *ring.PartitionInstanceRing) string {
+			keep := map[int32]struct{}{}
+			for _, id := range sub.PartitionRing().PartitionIDs() {
+				keep[id] = struct{}{}
 			}
-			sort.Strings(ss)
-			o = "ok:" + strings.Join(ss, ";")
+			rd := d.WithPartitions(keep)
+			return c14EncPDesc(&rd)
 		}
-		e.emit("C15.repl", c14EncPDesc(d), encDesc(inst), c15HealthyBits(op), o)
+		size := r.intn(len(d.Partitions) + 2)
+		ident := "tenant-" + itoa(r.intn(3))
+		if sub, err := pir.ShuffleShard(ident, size); err == nil {
+			sets, err := sub.GetReplicationSetsForOperation(op)
+			e.emit("C15.repl", restrict(sub), instStr, c15HealthyBits(op)+",shard,"+itoa(size), showSets(sets, err))
+		}
+		lookback := pick(r, []time.Duration{10 * time.Minute, 10 * time.Hour})
+		if sub, err := pir.ShuffleShardWithLookback(ident, size, lookback, time.Now()); err == nil {
+			sets, err := sub.GetReplicationSetsForOperation(op)
+			e.emit("C15.repl", restrict(sub), instStr, c15HealthyBits(op)+",lookback,"+itoa(size)+","+itoa(int(lookback/time.Minute))+"m", showSets(sets, err))
+		}
 		return
 	}
 	mr := ring.NewMultiPartitionInstanceRing(c15Reader{pr}, ir, time.Hour)
@@ -1182,7 +1217,7 @@ func c15Repl(e *env, r *rng) {
 			}
 			o = "ok:" + strings.Join(in, "+") + ":" + itoa(s.MaxUnavailableZones) + ":" + itoa(s.MaxErrors) + ":" + itoa(za)
 		}
-		e.emit("C15.mrepl", c14EncPDesc(d), encDesc(inst), c15HealthyBits(op)+","+strconv.Itoa(int(pid)), o)
+		e.emit("C15.mrepl", c14EncPDesc(d), instStr, c15HealthyBits(op)+","+strconv.Itoa(int(pid)), o)
 	}
 }
 
